@@ -36,7 +36,7 @@ for pid in sorted(CLAIMED):
         "engine": "govc",
         "level_claimed": {"category": "proof", "text": text, "design_ref": ref},
         "level_note": note,
-        "technique": "contract-based deductive verification: contracts in /repo verif_contracts.go, VCs generated over go/ssa by govc, discharged by z3/cvc5",
+        "technique": "contract-based deductive verification: contracts (requires/ensures/loop invariants/lock invariants/site assertions) in /repo verif_contracts.go files, verification conditions generated from the go/ssa form of /repo's working tree by govc, every obligation discharged by z3 5.1 / z3 4.8.12 / cvc5 1.0.3; quick = 4 s then a 45 s race of the three; thorough = 10 s then a 120 s race, every discharged obligation also given to an independent second solver (a sat there is a violation) and re-solved under a second seed (instability listed in the evidence); refuted no-panic/postcondition obligations of scalar-parameter functions are replayed on the real code with go test -overlay",
     })
 
 manifest = {
